@@ -179,36 +179,133 @@ def _patch_z3() -> None:
     _patched_z3 = True
 
 
-def _install_fmtstub() -> typing.Callable[[], None]:
+_FMT_RE = None
+
+
+def _percent_format(template: typing.Any, other: typing.Any) -> typing.Any:
     """
-    Message-formatting stub: `"template" % args` returns the un-interpolated template when an argument is a
-    symbolic value (pydsdl formats the offending number into every error message; interpolating it would
-    realise the symbolic value and enumerate the rejected region).  Opt-in per condition.
+    `template % other` for str: every argument is converted with str()/repr() (or realised, for numeric
+    conversions) under tracing, then interpolated concretely.  CrossHair's stock model deep-copies and realises the
+    whole argument object graph instead, which for pydsdl (every __str__ uses %-formatting and type equality goes
+    through str()) costs a deep copy of the type graph per call.  Semantics are those of CPython.
+    """
+    global _FMT_RE
+    import re
+    from crosshair.core import realize, deep_realize
+    from crosshair.tracers import NoTracing
+
+    with NoTracing():
+        if _FMT_RE is None:
+            _FMT_RE = re.compile(r"%(?:\((\w+)\))?([#0\- +]*)(\*|\d+)?(?:\.(\*|\d+))?([hlL])?([diouxXeEfFgGcrsa%])")
+    tmpl = realize(template)
+    with NoTracing():
+        specs = [m for m in _FMT_RE.finditer(tmpl) if m.group(6) != "%"]
+        simple = all(m.group(1) is None and m.group(3) != "*" and m.group(4) != "*" for m in specs)
+        is_tuple = type(other) is tuple
+    if not simple:
+        with NoTracing():
+            return str.__mod__(tmpl, deep_realize(other))
+    args = other if is_tuple else (other,)
+    if len(args) != len(specs):
+        with NoTracing():
+            return str.__mod__(tmpl, deep_realize(other))  # let CPython raise the proper TypeError
+    conv = []
+    for m, a in zip(specs, args):
+        c = m.group(6)
+        if c == "s":
+            conv.append(realize(str(a)))
+        elif c == "r":
+            conv.append(realize(repr(a)))
+        elif c == "a":
+            conv.append(realize(ascii(a)))
+        else:
+            conv.append(realize(a))
+    with NoTracing():
+        out = []
+        pos = 0
+        k = 0
+        for m in _FMT_RE.finditer(tmpl):
+            out.append(tmpl[pos : m.start()])
+            pos = m.end()
+            if m.group(6) == "%":
+                out.append("%")
+                continue
+            spec = m.group(0)
+            if m.group(6) in "ra":
+                spec = spec[:-1] + "s"
+            out.append(str.__mod__(spec, (conv[k],)))
+            k += 1
+        out.append(tmpl[pos:])
+        return "".join(out)
+
+
+def _install_percent(fmtstub: bool) -> typing.Callable[[], None]:
+    """
+    Installs the %-formatting model above.  With fmtstub=True (opt-in per condition) a message-formatting stub is
+    added: when an argument carries a symbolic value the un-interpolated template is returned (pydsdl formats the
+    offending number into every error message; interpolating would realise it and enumerate the rejected region).
     """
     from crosshair import core
     from crosshair.tracers import NoTracing
+    import fractions as _fr
 
     prev = core._PATCH_REGISTRATIONS.get(str.__mod__)  # pylint: disable=protected-access
 
-    def is_sym(x: typing.Any) -> bool:
+    def is_sym(x: typing.Any, depth: int = 0) -> bool:
         with NoTracing():
             t = type(x)
             if t in (int, str, bool, float, bytes, type(None)):
                 return False
             if t in (tuple, list):
-                return any(is_sym(y) for y in x)
-            return t.__module__.startswith("crosshair")
+                return any(is_sym(y, depth) for y in x)
+            if t.__module__.startswith("crosshair"):
+                return True
+            if depth >= 3:
+                return False
+            if t is _fr.Fraction:
+                return is_sym(x._numerator, depth + 1) or is_sym(x._denominator, depth + 1)  # type: ignore
+            if t.__module__.startswith("pydsdl._expression"):
+                # expression values wrap a native value in `_value`
+                return is_sym(getattr(x, "_value", None), depth + 1)
+            return False
 
-    def stub(self: typing.Any, other: typing.Any) -> typing.Any:
-        if is_sym(other) or is_sym(self):
+    def patched(self: typing.Any, other: typing.Any) -> typing.Any:
+        if fmtstub and (is_sym(other) or is_sym(self)):
             return self if not is_sym(self) else "<symbolic template>"
-        if prev is not None:
-            return prev(self, other)
-        return str.__mod__(self, other)
+        return _percent_format(self, other)
 
-    core._PATCH_REGISTRATIONS[str.__mod__] = stub  # pylint: disable=protected-access
+    core._PATCH_REGISTRATIONS[str.__mod__] = patched  # pylint: disable=protected-access
+
+    # f-strings and literal-template %-formatting (compiled to FORMAT_VALUE by CPython >= 3.10) go through
+    # CrossHair's FormatStashingValue; with the stub on, symbolic-bearing values are rendered as a placeholder.
+    from crosshair import opcode_intercept as _oi
+
+    FSV = _oi.FormatStashingValue
+    saved = (FSV.__str__, FSV.__format__, FSV.__repr__)
+    if fmtstub:
+
+        def _s(self: typing.Any) -> str:
+            if is_sym(self.value):
+                self.formatted = "<symbolic>"
+                return ""
+            return saved[0](self)
+
+        def _f(self: typing.Any, fmt: str) -> str:
+            if is_sym(self.value):
+                self.formatted = "<symbolic>"
+                return ""
+            return saved[1](self, fmt)
+
+        def _r(self: typing.Any) -> str:
+            if is_sym(self.value):
+                self.formatted = "<symbolic>"
+                return ""
+            return saved[2](self)
+
+        FSV.__str__, FSV.__format__, FSV.__repr__ = _s, _f, _r  # type: ignore
 
     def undo() -> None:
+        FSV.__str__, FSV.__format__, FSV.__repr__ = saved  # type: ignore
         if prev is None:
             core._PATCH_REGISTRATIONS.pop(str.__mod__, None)  # pylint: disable=protected-access
         else:
@@ -283,7 +380,8 @@ def explore(cond: Cond, budget: typing.Optional[float] = None, max_cex: int = 25
                 bad = "exception %s: %s" % (type(exc).__name__, _trunc(_safe_str(exc)))
                 if os.environ.get("VERIF_DEBUG") and _exc_stack is not None:
                     fr = _exc_stack.format()
-                    sys.stderr.write("".join(fr[:12]) + "   ...\n" + "".join(fr[-25:]) + bad + " (%d frames)\n" % len(fr))
+                    fr = [x for x in fr if "/crosshair/" not in x and "/lib/python3" not in x][-14:]
+                    sys.stderr.write("".join(fr) + bad + "\n")
         else:
             with NoTracing():
                 # identity tests only: never compare a symbolic value
@@ -307,7 +405,7 @@ def explore(cond: Cond, budget: typing.Optional[float] = None, max_cex: int = 25
             res["cex"].append({"args": {k: enc(v) for k, v in args.items()}, "symbolic_detail": bad})
             return len(res["cex"]) >= max_cex
 
-    undo = _install_fmtstub() if cond.fmtstub else None
+    undo = _install_percent(cond.fmtstub)
     try:
         # explore_paths does not expose exhaustion; recover it by wrapping bubble_status
         from crosshair.statespace import StateSpace
@@ -367,9 +465,11 @@ def explore(cond: Cond, budget: typing.Optional[float] = None, max_cex: int = 25
 
 def _safe_str(x: typing.Any) -> str:
     try:
-        from crosshair.core import deep_realize
+        from crosshair.core import realize
+        from crosshair.tracers import ResumedTracing
 
-        return str(deep_realize(x))
+        with ResumedTracing():
+            return str(realize(str(x)))
     except BaseException as ex:  # pylint: disable=broad-except
         return "<unprintable %s>" % type(ex).__name__
 
